@@ -639,6 +639,27 @@ class MimicSites(Lemma):
                 missing.append(f"{f}::{q} does not call {fn}(function, ...)")
         it.st.check("frame:all-seven-decorators-pass-their-wrapper-through-mimic", z3.BoolVal(not missing), kind="frame",
                     note="; ".join(missing))
+        # `mimic_function(function, within=self)` applies the metadata only `if target := within` - a truth test of the wrapper
+        # object (and `retry` / `timeout` / ... test `if function := function` when decorators are stacked): the wrapper classes
+        # must leave truthiness alone.  An object is falsy only through `__bool__` or `__len__` (language reference 3.3.1)
+        falsy = []
+        for (f, q) in sites:
+            if not q.endswith(".__init__"):
+                continue
+            cls = q.split(".")[0]
+            try:
+                node, _, _ = it.engine.repo.find(f, cls)
+            except Exception:
+                continue
+            for n in node.body:
+                if isinstance(n, (ast.FunctionDef, ast.AsyncFunctionDef)) and n.name in ("__bool__", "__len__"):
+                    falsy.append(f"{cls}.{n.name}")
+                if isinstance(n, ast.Assign) and any(isinstance(t, ast.Name) and t.id in ("__bool__", "__len__") for t in n.targets):
+                    falsy.append(f"{cls}.{n.targets[0].id}")
+            if any(not (isinstance(b, ast.Name) and b.id in ("object",)) for b in node.bases):
+                falsy.append(f"{cls} has base classes ({ast.unparse(node.bases[0])}): truthiness not audited")
+        it.st.check("P4:the-wrapper-objects-are-always-truthy(mimic-applies-the-metadata-only-to-a-truthy-target)",
+                    z3.BoolVal(not falsy), note="; ".join(falsy))
 
 
 CONTRACTS = [ExecCall(), ExecMethod(), ExecGet(), WrapAsync(), WrapAsyncFactory(), TracedSync(), TracedAsync(), ArgumentsTraceOf(), ResultTraceOf(), MimicSync(),
